@@ -134,6 +134,16 @@ type affCtx struct {
 
 // inlinable: a same-package, unexported, non-recursive helper with a single return whose result can be described in place.
 func (ac *affCtx) inlinable(call *ssa.Call) (*ssa.Function, bool) {
+	callee, ok := ac.transparent(call)
+	if !ok || len(returnsOf(callee)) != 1 {
+		return nil, false
+	}
+	return callee, true
+}
+
+// transparent: a helper the description looks through: same package, unexported, not recursive, without loops,
+// and not part of the vocabulary the WIRE facts are written in (those stay opaque so that the facts keep their names).
+func (ac *affCtx) transparent(call *ssa.Call) (*ssa.Function, bool) {
 	if ac.inlining >= 3 {
 		return nil, false
 	}
@@ -150,7 +160,7 @@ func (ac *affCtx) inlinable(call *ssa.Call) (*ssa.Function, bool) {
 	if obj := callee.Object(); obj == nil || obj.Exported() {
 		return nil, false
 	}
-	if len(returnsOf(callee)) != 1 {
+	if wireVocabulary()[fname(callee)] {
 		return nil, false
 	}
 	// no loops: the result must be an expression of the parameters
@@ -160,6 +170,58 @@ func (ac *affCtx) inlinable(call *ssa.Call) (*ssa.Function, bool) {
 		}
 	}
 	return callee, true
+}
+
+// principalReturn: result i of a transparent helper with several returns, when exactly one return yields something
+// other than nil / a zero constant for it (the value on the success path; the other returns are the error exits).
+func (ac *affCtx) principalReturn(call *ssa.Call, i int) (*ssa.Function, ssa.Value, bool) {
+	callee, ok := ac.transparent(call)
+	if !ok || i >= callee.Signature.Results().Len() {
+		return nil, nil, false
+	}
+	if isErrorType(callee.Signature.Results().At(i).Type()) {
+		return nil, nil, false
+	}
+	var principal ssa.Value
+	n := 0
+	for _, r := range returnsOf(callee) {
+		v := retVal(r, i)
+		if isNilConst(v) {
+			continue
+		}
+		if k, ok := v.(*ssa.Const); ok && k.Value != nil && (k.Value.ExactString() == "0" || k.Value.ExactString() == "false" || k.Value.ExactString() == `""`) {
+			continue
+		}
+		// a zero-valued struct local that is never written (`var d T; return d, err`)
+		if isUnwrittenLocal(v) {
+			continue
+		}
+		principal = v
+		n++
+	}
+	if n != 1 {
+		return nil, nil, false
+	}
+	return callee, principal, true
+}
+
+func isUnwrittenLocal(v ssa.Value) bool {
+	ld, ok := v.(*ssa.UnOp)
+	if !ok || ld.Op != token.MUL {
+		return false
+	}
+	al, ok := ld.X.(*ssa.Alloc)
+	if !ok {
+		return false
+	}
+	for _, r := range *al.Referrers() {
+		if r != ssa.Instruction(ld) {
+			if _, isLoad := r.(*ssa.UnOp); !isLoad {
+				return false
+			}
+		}
+	}
+	return true
 }
 
 func (ac *affCtx) child(callee *ssa.Function, call *ssa.Call) *affCtx {
@@ -343,6 +405,11 @@ func (ac *affCtx) describe(v ssa.Value) string {
 	case *ssa.MakeInterface:
 		return ac.describe(x.X)
 	case *ssa.Extract:
+		if call, ok := x.Tuple.(*ssa.Call); ok {
+			if callee, rv, ok := ac.principalReturn(call, x.Index); ok {
+				return ac.child(callee, call).describe(rv)
+			}
+		}
 		return fmt.Sprintf("%s#%d", ac.describe(x.Tuple), x.Index)
 	case *ssa.Call:
 		if callee, ok := ac.inlinable(x); ok && callee.Signature.Results().Len() == 1 {
